@@ -174,6 +174,11 @@ Proof.
   rewrite IH. lia.
 Qed.
 
+#[export] Hint Rewrite @app_length @repeat_length @firstn_length @rev_length @map_length : lens.
+Ltac len_simpl :=
+  unfold len, zrepeat, zfirstn in *;
+  repeat (progress (autorewrite with lens in *; cbn [length] in * )).
+
 (** * existsb / forallb and permutations *)
 Lemma existsb_perm {A} (f : A -> bool) l1 l2 : Permutation l1 l2 -> existsb f l1 = existsb f l2.
 Proof.
